@@ -73,11 +73,17 @@ FUNCS = {
     "repeat": ("sn", "repeat(s, n)"), "concat": ("sa", "concat(s, a)"),
     "starts_with": ("sa", "starts_with(s, a)"), "ends_with": ("sa", "ends_with(s, a)"),
     "contains": ("sa", "contains(s, a)"), "split_part": ("san", "split_part(s, a, n)"),
+    # case mapping: the model has the ASCII rows only, so these get pure-ASCII strings
+    "upper": ("s", "upper(s)"), "lower": ("s", "lower(s)"), "initcap": ("s", "initcap(s)"),
 }
+CASE_POOL = list("abzAZmQ019 -_.,+(/") + ["\n", "\t"]
+INITCAP_SEPS = " \t\n\r\x0b\x0c-_.,"
 
 
 def gen_args(rng, fn):
     s = rand_str(rng)
+    if fn in ("upper", "lower", "initcap"):
+        s = "".join(rng.choice(CASE_POOL) for _ in range(rng.below(21)))
     a = {"s": s}
     if fn in ("left", "right"):
         a["n"] = rng.choice([MIN64, MAX64, -MAX64]) if rng.chance(4) else small_int(rng, -8, 24)
@@ -127,6 +133,8 @@ WITNESSES = {
     "replace": [{"s": "aaa", "a": "aa", "b": "b"}, {"s": "日本日", "a": "日", "b": ""}],
     "translate": [{"s": "abcabc", "a": "aab", "b": "xy"}],
     "reverse": [{"s": "áb"}, {"s": "日本😀é"}],
+    "initcap": [{"s": "a+b"}, {"s": "hello wORLD foo_bar 1a"}, {"s": "x1y Z9z"}],
+    "upper": [{"s": "abc xyz AZ az 09 {`"}], "lower": [{"s": "ABC XYZ az AZ 09 [@"}],
 }
 
 COLS = [("id", "i32"), ("s", "text"), ("a", "text"), ("b", "text"), ("n", "i64"), ("m", "i64")]
@@ -193,9 +201,9 @@ def classify_fn_failure(fn, a, impl, spec):
     n = a.get("n", 0)
     if fn == "substring3" and a["m"] < 0 and impl == "S" and spec == "ERR":
         return "substring-negative-count-accepted"
+    if fn == "initcap" and any((not c.isalnum()) and c not in INITCAP_SEPS for c in a["s"]):
+        return "initcap-unlisted-separator"
     if fn == "split_part":
-        if n == MIN64 and impl == "PANIC":
-            return "split-part-i64-min-negate-overflow"
         if n == 0 and spec == "ERR":
             return "split-part-zero-field"
         if a["a"] == "" and n == -1:
@@ -422,6 +430,198 @@ def stage_like(ctx, rng, gverif, gmodel):
     return {"violations": viol, "known": known, "evaluations": evals, "distinct": npairs, "sample": sample,
             "patterns": len(pats), "strings": len(strs), "column_patterns": len(colp)}
 
+# ---------------------------------------------------------------- regular expressions
+RX_ALPHA = ["a", "b", "c", "é", "日", "\n", ".", "+"]
+RX_META = set("\\.+*?()|[]{}^$#&-~")
+
+
+def rx_gen(rng, depth):
+    k = rng.below(10) if depth > 0 else rng.below(4)
+    if k < 2:
+        return ("lit", rng.choice(RX_ALPHA))
+    if k == 2:
+        return ("dot",)
+    if k == 3:
+        items = []
+        for _ in range(1 + rng.below(3)):
+            c = rng.choice(["a", "b", "c", "é", "日", "+", "."])
+            if c in "ab" and rng.chance(40):
+                items.append((c, "c"))
+            else:
+                items.append((c, c))
+        return ("set", rng.chance(30), items)
+    if k in (4, 5):
+        return ("cat", rx_gen(rng, depth - 1), rx_gen(rng, depth - 1))
+    if k == 6:
+        return ("alt", rx_gen(rng, depth - 1), rx_gen(rng, depth - 1))
+    body = rx_gen(rng, depth - 1)
+    if rx_nullable(body):          # keep the bodies of * + ? non-nullable (no empty iterations)
+        body = ("lit", rng.choice(RX_ALPHA))
+    return (["star", "plus", "opt"][k - 7], body)
+
+
+def rx_nullable(n):
+    t = n[0]
+    if t in ("lit", "dot", "set"):
+        return False
+    if t == "cat":
+        return rx_nullable(n[1]) and rx_nullable(n[2])
+    if t == "alt":
+        return rx_nullable(n[1]) or rx_nullable(n[2])
+    if t == "plus":
+        return rx_nullable(n[1])
+    return True
+
+
+def rx_lit(c):
+    if c == "\n":
+        return "\\n"
+    return ("\\" + c) if c in RX_META else c
+
+
+def rx_print(n, ctx=0):
+    """regex-crate syntax; ctx 0 = alternation level, 1 = concatenation level, 2 = needs an atom"""
+    t = n[0]
+    if t == "lit":
+        return rx_lit(n[1])
+    if t == "dot":
+        return "."
+    if t == "set":
+        esc = lambda c: ("\\" + c) if c in "\\]^[-&~" else c
+        body = "".join(esc(lo) if lo == hi else esc(lo) + "-" + esc(hi) for lo, hi in n[2])
+        return "[" + ("^" if n[1] else "") + body + "]"
+    if t == "cat":
+        r = rx_print(n[1], 1) + rx_print(n[2], 1)
+        return "(?:" + r + ")" if ctx == 2 else r
+    if t == "alt":
+        r = rx_print(n[1], 0) + "|" + rx_print(n[2], 0)
+        return "(?:" + r + ")" if ctx >= 1 else r
+    r = rx_print(n[1], 2) + {"star": "*", "plus": "+", "opt": "?"}[t]
+    return "(?:" + r + ")" if ctx == 2 else r      # x+? would be a lazy quantifier
+
+
+def rx_sexp(n):
+    t = n[0]
+    if t == "lit":
+        return "(lit %d)" % ord(n[1])
+    if t == "dot":
+        return "(dot)"
+    if t == "set":
+        return "(set %d %s)" % (n[1], " ".join("(%d %d)" % (ord(lo), ord(hi)) for lo, hi in n[2]))
+    if t in ("cat", "alt"):
+        return "(%s %s %s)" % (t, rx_sexp(n[1]), rx_sexp(n[2]))
+    if t == "star":
+        return "(star %s)" % rx_sexp(n[1])
+    if t == "plus":
+        return "(cat %s (star %s))" % (rx_sexp(n[1]), rx_sexp(n[1]))
+    return "(alt %s (eps))" % rx_sexp(n[1])
+
+
+RX_WITNESS = [  # (bol, eol, ast, string, replacement)
+    (False, False, ("lit", "a"), "日a", "X"), (False, True, ("lit", "日"), "日a日", "\\0\\0"),
+    (False, False, ("alt", ("lit", "a"), ("alt", ("cat", ("lit", "a"), ("lit", "b")), ("lit", "b"))), "ab", "[\\0]"),
+    (False, False, ("star", ("lit", "a")), "aaa", "X"), (False, False, ("star", ("lit", "a")), "baaab", "\\\\"),
+    (False, False, ("cat", ("lit", "a"), ("cat", ("dot",), ("lit", "b"))), "a\nb", "X"),
+    (True, False, ("lit", "b"), "ab", "X"), (False, True, ("opt", ("lit", "x")), "a\n", "\\1Y\\"),
+    (False, False, ("set", True, [("a", "c")]), "abé", "\\x"),
+]
+
+
+def stage_regex(ctx, rng, gverif, gmodel):
+    quick = ctx["tier"] == "quick"
+    n = 500 if quick else 12000
+    tuples = list(RX_WITNESS)
+    while len(tuples) < n:
+        ast = rx_gen(rng, 3)
+        bol, eol = rng.chance(20), rng.chance(20)
+        for _ in range(4):
+            k = rng.below(9)
+            pool = RX_ALPHA if rng.chance(60) else ["a", "b", "é"]
+            st = "".join(rng.choice(pool) for _ in range(k))
+            rep = "".join(rng.choice(["X", "é", "\\", "0", "1", "\\0", "-"]) for _ in range(rng.below(4)))
+            tuples.append((bol, eol, ast, st, rep))
+    pat = lambda t: ("^" if t[0] else "") + rx_print(t[2], 1 if (t[0] or t[1]) else 0) + ("$" if t[1] else "")
+    lines = ["%d\t%d\t%s\t%s\t%s" % (t[0], t[1], rx_sexp(t[2]), hx(t[3]), hx(t[4])) for t in tuples]
+    mout = [o.split(" ") for o in common.run_model(gmodel, "rx", lines, timeout=1800)]
+    cols = [("id", "i32"), ("s", "text"), ("p", "text"), ("r", "text")]
+    q = "regexp_like(s, p), regexp_instr(s, p), regexp_count(s, p), regexp_replace(s, p, r)"
+    cases = []
+    chunk = 250
+    for k in range(0, len(tuples), chunk):
+        rows = [["I%d" % (k + i), "S" + t[3], "S" + pat(t), "S" + t[4]] for i, t in enumerate(tuples[k:k + chunk])]
+        cases.append({"id": "rx-col-%d" % k, "mode": "det", "partitions": 1, "timeout_s": 120,
+                      "stmts": [gen.create_table("t", cols)] + gen.insert_rows("t", cols, rows, chunk=125) + ["select id, %s from t" % q]})
+    # constant-pattern path: pattern and replacement as literals
+    nconst = 60 if quick else 600
+    cstm = [gen.create_table("t", cols)] + gen.insert_rows("t", cols, [["I%d" % i, "S" + t[3], "S", "S"] for i, t in enumerate(tuples[:nconst])], chunk=125)
+    for i, t in enumerate(tuples[:nconst]):
+        cstm.append("select id, %s from t where id = %d" % (q.replace("(s, p, r)", "(s, '%s', '%s')" % (pat(t), t[4])).replace("(s, p)", "(s, '%s')" % pat(t)), i))
+    cases.append({"id": "rx-const", "mode": "det", "partitions": 1, "timeout_s": 300, "stmts": cstm})
+    res = common.run_harness(gverif, "sql", cases, timeout=3000)
+    got_col, got_const = {}, {}
+    viol, known, evals = [], {}, 0
+    for c, r in zip(cases, res):
+        rr = r.get("results", [])
+        if len(rr) < len(c["stmts"]) or not all(x.get("ok") for x in rr):
+            bad = [(c["stmts"][i], x) for i, x in enumerate(rr) if not x.get("ok")][:1]
+            viol.append({"what": "regexp batch did not complete", "replay": {"case": c["id"], "first_failure": bad or r}, "no_input": False})
+            continue
+        if c["id"] == "rx-const":
+            for x in rr[-nconst:]:
+                for row in x["rows"]:
+                    got_const[int(row[0][1:])] = [canon_cell(v) for v in row[1:]]
+        else:
+            for row in rr[-1]["rows"]:
+                got_col[int(row[0][1:])] = [canon_cell(v) for v in row[1:]]
+    names = ["regexp_like", "regexp_instr", "regexp_count", "regexp_replace"]
+    for i, (t, m) in enumerate(zip(tuples, mout)):
+        like_m, instr_m, instr_spec, count_m, repl_m = m
+        want = [like_m, instr_m, count_m, repl_m]
+        for path, got in (("pattern column", got_col.get(i)), ("constant pattern", got_const.get(i))):
+            if got is None:
+                continue
+            evals += 4
+            for nm, g, w in zip(names, got, want):
+                if g != w:
+                    viol.append({"what": "%s (%s) differs from the regex model" % (nm, path), "no_input": False,
+                                 "replay": {"pattern": pat(t), "string": t[3], "replacement": t[4], "engine": g, "model": w,
+                                            "stmts": ["select %s('%s', '%s'%s)" % (nm, t[3], pat(t), ", '%s'" % t[4] if nm == "regexp_replace" else "")]}})
+                    break
+        if instr_m != instr_spec:
+            # property-level: position reported in bytes.  known class: a multi-byte character before the match
+            st = int(instr_spec[1:]) - 1
+            if any(ord(ch) > 127 for ch in t[3][:st]):
+                known.setdefault("regexp-instr-byte-offset", {"pattern": pat(t), "string": t[3], "engine": instr_m, "definition": instr_spec,
+                                                               "stmts": ["select regexp_instr('%s', '%s')" % (t[3], pat(t))]})
+            else:
+                viol.append({"what": "regexp_instr differs from the definition", "no_input": False,
+                             "replay": {"pattern": pat(t), "string": t[3], "engine": instr_m, "definition": instr_spec}})
+    viol = viol[:10]
+    return {"violations": viol, "known": known, "evaluations": evals, "distinct": len(set((pat(t), t[3]) for t in tuples)),
+            "sample": {"pattern": pat(tuples[-1]), "model_regex": rx_sexp(tuples[-1][2]), "string": tuples[-1][3], "model": mout[-1]},
+            "tuples": len(tuples)}
+
+
+def stage_case_unicode(ctx, rng, gverif):
+    """upper / lower on non-ASCII input: no Coq model of the Unicode tables; reference = CPython's str.upper/lower"""
+    pool = ["a", "Z", "é", "É", "ß", "日", "😀", "ñ", "Ω", "ω", " ", "1"]
+    strs = ["".join(rng.choice(pool) for _ in range(rng.below(14))) for _ in range(80 if ctx["tier"] == "quick" else 1500)]
+    cols = [("id", "i32"), ("s", "text")]
+    stmts = [gen.create_table("t", cols)] + gen.insert_rows("t", cols, [["I%d" % i, "S" + x] for i, x in enumerate(strs)], chunk=100) + \
+        ["select id, upper(s), lower(s) from t"]
+    r = common.run_harness(gverif, "sql", [{"id": "case-u", "mode": "det", "partitions": 1, "timeout_s": 60, "stmts": stmts}])[0]
+    viol = []
+    last = (r.get("results") or [{}])[-1]
+    if not last.get("ok"):
+        return {"violations": [{"what": "upper/lower batch failed", "replay": {"result": last or r}, "no_input": False}], "evaluations": 0}
+    for row in last["rows"]:
+        x = strs[int(row[0][1:])]
+        if row[1] != "S" + x.upper() or row[2] != "S" + x.lower():
+            viol.append({"what": "upper/lower differs from the Unicode reference (CPython)", "no_input": False,
+                         "replay": {"string": x, "engine": row[1:], "reference": [x.upper(), x.lower()], "stmts": ["select upper('%s'), lower('%s')" % (x, x)]}})
+            break
+    return {"violations": viol, "evaluations": 2 * len(strs)}
+
 
 def run(ctx):
     t0 = time.time()
@@ -437,12 +637,16 @@ def run(ctx):
     gmodel = common.build_ocaml("text")
     f = stage_functions(ctx, rng, gverif, gmodel)
     l = stage_like(ctx, rng, gverif, gmodel)
-    out["violations"] += f["violations"][:25] + l["violations"][:25]
+    x = stage_regex(ctx, rng, gverif, gmodel)
+    cu = stage_case_unicode(ctx, rng, gverif)
+    out["violations"] += f["violations"][:25] + l["violations"][:25] + x["violations"] + cu["violations"]
     kf = {k["id"]: k for k in common.known_findings()["known"] if k["property"] == PID}
-    for cls, info in list(f["known"].items()) + list(l["known"].items()):
+    for cls, info in list(f["known"].items()) + list(l["known"].items()) + list(x["known"].items()):
         if cls in kf:
             if "function" in info:
                 w = "%s with %s -> engine %s, definition %s" % (info["call"], info["args"], info["engine"], info["spec"])
+            elif "definition" in info:
+                w = "%s -> engine %s, definition %s" % (info["stmts"][-1], info["engine"], info["definition"])
             else:
                 w = "%r LIKE %r -> optimized %s, unoptimized %s, definition %s" % (
                     info["string"], info["pattern"], info["engine_optimized"], info["engine_unoptimized"], info["declarative"])
@@ -461,17 +665,18 @@ def run(ctx):
                          "std::str semantics taken as documented: chars/char_indices/slicing/trim_matches/starts_with/ends_with/contains/replace/split/match_indices; regex crate: literals, `.` (no newline), `.*`, anchors",
                          "extraction (ExtrOcamlBasic only) + ocaml/text.ml parsing/printing", "harness/src/sql.rs (gverif sql)"],
         "theorems": obligations,
-        "evaluations": f["evaluations"] + l["evaluations"],
-        "distinct_nontrivial": f["distinct"] + l["distinct"],
-        "rule": "functions: every generated (function, argument tuple) is evaluated by the engine through SQL (arguments in table columns, so short inline and long heap strings both occur), by the extracted transcription and by the extracted definition; engine == transcription is required always, transcription != definition must fall in a class of findings/C20.json. LIKE: every (pattern, string) pair of the exhaustive core (all patterns x all strings up to length 3 over 7 symbols) plus random longer ones, evaluated with the optimizer on, off and with the pattern in a column, against the extracted regex-matcher model, rewrite model and declarative matcher; distinct = distinct argument tuples + distinct (pattern, string) pairs.",
-        "samples": f["samples"] + [l["sample"]],
+        "evaluations": f["evaluations"] + l["evaluations"] + x["evaluations"] + cu["evaluations"],
+        "distinct_nontrivial": f["distinct"] + l["distinct"] + x["distinct"],
+        "regex_tuples": x["tuples"], "regex_evaluations": x["evaluations"], "case_unicode_reference_evaluations": cu["evaluations"],
+        "rule": "functions: every generated (function, argument tuple) is evaluated by the engine through SQL (arguments in table columns, so short inline and long heap strings both occur), by the extracted transcription and by the extracted definition; engine == transcription is required always, transcription != definition must fall in a class of findings/C20.json. LIKE: every (pattern, string) pair of the exhaustive core (all patterns x all strings up to length 3 over 7 symbols) plus random longer ones, evaluated with the optimizer on, off and with the pattern in a column, against the extracted regex-matcher model, rewrite model and declarative matcher; distinct = distinct argument tuples + distinct (pattern, string) pairs. regexp_*: generated patterns of the modelled fragment (literals, classes, `.`, * + ?, alternation, concatenation, ^ $ at the ends) printed in regex-crate syntax, pattern in a column and as a constant; regexp_like and regexp_instr against the derivative matcher (proved = declarative semantics), regexp_count and regexp_replace against the extracted leftmost-first backtracking model (no theorem). upper/lower/initcap: ASCII strings against the extracted ASCII instance; non-ASCII upper/lower against CPython's str.upper/lower only.",
+        "samples": f["samples"] + [l["sample"], x["sample"]],
         "function_tuples": f["evaluations"], "functions": len(FUNCS), "single_tuple_cases": f["singles"],
         "bulk_fallbacks": f["bulk_fallbacks"],
         "like_patterns": l["patterns"], "like_strings": l["strings"], "like_column_patterns": l["column_patterns"],
         "like_pairs_const": l["distinct"], "exhaustive": False,
     }
     out["assumptions"] = ["SQL string literals cannot carry a single quote or NUL; those two characters are outside the tested alphabet",
-                          "case mapping (upper/lower/initcap), md5 and the regexp_* functions are not modelled",
+                          "case mapping is modelled for ASCII only (non-ASCII compared with CPython's tables); md5 is not modelled; regexp_* only inside the fragment, regexp_count/regexp_replace match ends by an unproved backtracking model; the regex fragment takes the regex-crate meaning of `.` (no newline), PostgreSQL's `.` matches newline",
                           "very large counts (lpad/rpad/repeat allocate, substring spins) are not sent to the engine"]
     out["wall"] = time.time() - t0
     return out
